@@ -14,6 +14,7 @@ import (
 	"github.com/mimecast/dtail/internal/mapr"
 	"github.com/mimecast/dtail/internal/mapr/logformat"
 	"github.com/mimecast/dtail/internal/protocol"
+	"github.com/mimecast/dtail/internal/verifhook"
 )
 
 // Aggregate is for aggregating mapreduce data on the DTail server side.
@@ -144,6 +145,9 @@ func (a *Aggregate) nextLine() (line *line.Line, ok bool, noMoreChannels bool) {
 			default:
 				// Only done when nobody is about to queue another channel.
 				noMoreChannels = atomic.LoadInt32(&a.pending) == 0
+				if noMoreChannels {
+					verifhook.At("aggregate.nomore", a)
+				}
 			}
 		}
 	default:
